@@ -53,8 +53,29 @@ IDENTITY = {  # natively handled third-party types: attributes that decide equal
     "Series": {"name": "Series.name", "index": "labels, their order and duplicates (to_dict() collapses them)", "values|tolist|to_numpy|array|to_dict": "the data"},
     "DataFrame": {"columns|to_dict": "column labels", "index": "row labels (to_dict('list') drops them)", "values|to_numpy|to_dict": "the data"},
 }
-CONVERTERS = {"to_hashable", "_hashable_iterable", "_hashable_mapping"}
-SORTERS = {"sorted", "_sorted"}
+CONVERTERS = {"to_hashable"}  # + the module functions that apply to_hashable to the elements of their argument (see _roles)
+SORTERS = {"sorted"}  # + the module functions whose every return is a sorter's result (see _roles)
+
+
+def _roles(ctx: Ctx) -> None:
+    """Fill CONVERTERS / SORTERS from what the functions of pipefunc.cache do (names are not trusted)."""
+    funcs = [f for f in ctx.prog.functions_in(MOD) if f.cls is None]
+    conv, sort = {"to_hashable"}, {"sorted"}
+    for _ in range(3):
+        for f in funcs:
+            if f.name in ("to_hashable", "try_to_hashable"):
+                continue
+            rets = [r.value for r in walk_no_nested(f.node) if isinstance(r, ast.Return) and r.value is not None]
+            if rets and all(isinstance(Defs(f).resolve(v), ast.Call) and _last(dotted(Defs(f).resolve(v).func)) in sort for v in rets):
+                sort.add(f.name)
+            # a converter applies a converter inside a comprehension / loop over its argument
+            if any(isinstance(c, ast.Call) and _last(dotted(c.func)) in conv for it in iterations(f.node) for c in ast.walk(it["node"])) and f.params and not f.name.startswith("__"):
+                if any("Iterable" in norm(a.annotation) or "Mapping" in norm(a.annotation) or "dict" in norm(a.annotation) for a in f.params if a.annotation is not None):
+                    conv.add(f.name)
+    CONVERTERS.clear()
+    CONVERTERS.update(conv)
+    SORTERS.clear()
+    SORTERS.update(sort)
 
 
 def _last(name: str) -> str:
@@ -254,14 +275,15 @@ def rule_order_and_recursion(ctx: Ctx) -> None:  # noqa: C901, PLR0912
                 ctx.add("4-recursive", fn, ret, converted, f"`{t}` elements are converted recursively" if converted else f"`{t}` elements are embedded unconverted: nested unhashable values make the key unhashable", key=f"rec {t}")
         if "ndarray" in types:
             n4 += 1
-            flat = [c for e in exprs for c in ast.walk(e) if isinstance(c, ast.Call) and dotted(c.func) in ("tuple", "list") and c.args and any(w in norm(c.args[0]) for w in ("flatten", "ravel", "flat", "tolist"))]
+            dfn = Defs(fn)
+            flat = [c for e in exprs for c in ast.walk(e) if isinstance(c, ast.Call) and dotted(c.func) in ("tuple", "list") and c.args and any(w in norm(dfn.resolve(c.args[0])) for w in ("flatten", "ravel", "flat", "tolist"))]
             unguarded = []
             for c in flat:
                 g = False
                 for region in regions:
                     for inner in ast.walk(region):
-                        if isinstance(inner, (ast.If, ast.IfExp)) and "hasobject" in norm(inner.test) or (isinstance(inner, (ast.If, ast.IfExp)) and "dtype == object" in norm(inner.test)):
-                            _t, pol = cond(inner.test)
+                        if isinstance(inner, (ast.If, ast.IfExp)) and ("hasobject" in norm(dfn.resolve(inner.test)) or "dtype == object" in norm(dfn.resolve(inner.test))):
+                            _t, pol = cond(dfn.resolve(inner.test))
                             body = inner.body if isinstance(inner.body, list) else [inner.body]
                             orelse = inner.orelse if isinstance(inner.orelse, list) else [inner.orelse]
                             safe_arm = orelse if pol else body
@@ -274,12 +296,17 @@ def rule_order_and_recursion(ctx: Ctx) -> None:  # noqa: C901, PLR0912
                     "ndarray elements: flat only for non-object dtypes, converted otherwise",
                     f"`{norm(unguarded[0]) if unguarded else ''}` embeds ndarray elements unconverted also for object arrays (lists/dicts inside make the key unhashable)",
                     "ndarray element handling not recognised", key="rec ndarray")
-    for hname in ("_hashable_iterable", "_hashable_mapping"):
-        h = ctx.prog.func(f"{MOD}.{hname}")
+    helpers = [f for f in ctx.prog.functions_in(MOD) if f.cls is None and f.name in CONVERTERS and f.name != "to_hashable"]
+    for h in helpers:
         n4 += 1
-        ok = bool(_calls(h.node, {"to_hashable"}))
-        ctx.add("4-recursive", h, h.node, ok, f"{hname} applies to_hashable to each element" if ok else f"{hname} no longer converts the elements", key=f"def {hname}")
-    mp = ctx.prog.func(f"{MOD}._hashable_mapping")
+        ctx.add("4-recursive", h, h.node, True, f"{h.name} applies to_hashable to each element", key=f"def {h.name}")
+    maps = [h for h in helpers if any(isinstance(it["target"], ast.Tuple) and len(it["target"].elts) == 2 for it in iterations(h.node))]
+    if not maps:
+        ctx.add("4-recursive", fn, fn.node, None, "UNDECIDED: no helper converting the values of a mapping was found", key="mapping keeps keys")
+        ctx.floor("3-order", n3, 9)
+        ctx.floor("4-recursive", n4, 10)
+        return
+    mp = maps[0]
     its = [it for it in iterations(mp.node) if isinstance(it["target"], ast.Tuple) and len(it["target"].elts) == 2]
     gens = [it for it in its if it["kind"] == "comp" and isinstance(getattr(it["node"], "elt", None), ast.Tuple)]
     if gens:
@@ -297,7 +324,7 @@ def rule_order_and_recursion(ctx: Ctx) -> None:  # noqa: C901, PLR0912
 def rule_total(ctx: Ctx) -> None:
     fn, _b = _to_hashable_facts(ctx)
     n5 = 0
-    funcs = [fn, *[x for x in ctx.prog.functions_in(MOD) if x.name in ("_hashable_iterable", "_hashable_mapping", "_sorted")]]
+    funcs = [fn, *[x for x in ctx.prog.functions_in(MOD) if x.cls is None and x.name in (CONVERTERS | SORTERS) - {"to_hashable"}]]
     for f in funcs:
         par = {id(c): p for p in ast.walk(f.node) for c in ast.iter_child_nodes(p)}
         for c in [c for c in walk_no_nested(f.node) if isinstance(c, ast.Call) and dotted(c.func) == "sorted"]:
@@ -358,8 +385,8 @@ def rule_stable(ctx: Ctx) -> None:
         good = "dumps(" in src and any(w in src for w in ("md5", "sha1", "sha256", "blake2"))
         ctx.tri("7-stable", h, h.node, good and not unstable, bool(unstable), f"{hn}: pickle bytes -> digest", f"{hn} uses {unstable}: the name differs between processes", f"{hn}: derivation not recognised", key=f"def {hn}")
     # the canonical order of unordered containers must not depend on hash()/id() either
-    for f in [x for x in ctx.prog.functions_in(MOD) if x.name in ("_sorted", "_hashable_iterable", "_hashable_mapping", "to_hashable")]:
-        for c in [c for c in walk_no_nested(f.node) if isinstance(c, ast.Call) and dotted(c.func) in ("sorted", "_sorted", "min", "max")]:
+    for f in [x for x in ctx.prog.functions_in(MOD) if x.cls is None and x.name in CONVERTERS | SORTERS]:
+        for c in [c for c in walk_no_nested(f.node) if isinstance(c, ast.Call) and dotted(c.func) in SORTERS | {"min", "max"}]:
             for k in [k.value for k in c.keywords if k.arg == "key"]:
                 ktxt = _callable_text(ctx, f, k)
                 dep = [w for w in ("hash(", "id(") if w in ktxt]
@@ -430,16 +457,26 @@ def rule_sole(ctx: Ctx) -> None:  # noqa: C901
     par = {id(c): p for p in ast.walk(ck.node) for c in ast.iter_child_nodes(p)}
     raw_loads = []
     n_loads = 0
-    for sub in [x for x in ast.walk(ck.node) if isinstance(x, ast.Subscript) and isinstance(x.value, ast.Name) and x.value.id == kwargs_p and isinstance(x.ctx, ast.Load)]:
+    def uses(sub: ast.AST, depth: int = 2) -> list[ast.AST]:
+        """`sub` itself, or - when it is only stored in a local - the places where that local is read."""
+        up = par.get(id(sub))
+        if depth and isinstance(up, ast.Assign) and up.value is sub and len(up.targets) == 1 and isinstance(up.targets[0], ast.Name):
+            v = up.targets[0].id
+            reads = [x for x in ast.walk(ck.node) if isinstance(x, ast.Name) and x.id == v and isinstance(x.ctx, ast.Load)]
+            return [u for r in reads for u in uses(r, depth - 1)]
+        return [sub]
+
+    for sub0 in [x for x in ast.walk(ck.node) if isinstance(x, ast.Subscript) and isinstance(x.value, ast.Name) and x.value.id == kwargs_p and isinstance(x.ctx, ast.Load)]:
         n_loads += 1
-        y: ast.AST = sub
-        inside = False
-        while id(y) in par:
-            y = par[id(y)]
-            if isinstance(y, ast.Call) and _last(dotted(y.func)) in BUILDERS:
-                inside = True
-        if not inside:
-            raw_loads.append(sub)
+        for sub in uses(sub0):
+            y: ast.AST = sub
+            inside = False
+            while id(y) in par:
+                y = par[id(y)]
+                if isinstance(y, ast.Call) and _last(dotted(y.func)) in BUILDERS:
+                    inside = True
+            if not inside:
+                raw_loads.append(sub)
     ctx.tri("8-sole", ck, raw_loads[0] if raw_loads else ck.node, n_loads > 0 and not raw_loads, bool(raw_loads), "every argument value enters the pipeline cache key through to_hashable",
             f"`{norm(raw_loads[0]) if raw_loads else ''}` enters the pipeline cache key without to_hashable", f"no `{kwargs_p}[...]` load found", key="values hashed")
     d = Defs(ck)
@@ -452,6 +489,7 @@ def rule_sole(ctx: Ctx) -> None:  # noqa: C901
 
 
 def check(ctx: Ctx) -> None:
+    _roles(ctx)
     for rule in (rule_tagged, rule_dispatch, rule_order_and_recursion, rule_total, rule_identity, rule_stable, rule_sole):
         ctx.run(rule)
 
